@@ -1,6 +1,153 @@
 package main
 
-import "verif/harness/internal/vh"
+import (
+	"fmt"
+	"io"
+	"math/big"
+	"strings"
+	"sync"
 
-func primeChecks(a vh.Args, res *vh.Result, g *genCtx) {}
-func replayPrime(a vh.Args, res *vh.Result, txt string) {}
+	"github.com/bronlabs/bron-crypto/pkg/base/nt"
+	"github.com/bronlabs/bron-crypto/pkg/base/nt/num"
+
+	"verif/harness/internal/vh"
+)
+
+// lockedReader makes the seeded stream safe for the generators that draw from two goroutines.
+type lockedReader struct {
+	mu sync.Mutex
+	r  io.Reader
+}
+
+func (l *lockedReader) Read(p []byte) (int, error) {
+	l.mu.Lock()
+	defer l.mu.Unlock()
+	return l.r.Read(p)
+}
+
+type primeReq struct {
+	form string // prime | blum | safe | pair | blumpair | safepair
+	bits int    // requested bit length of each prime (pairs: keyLen = 2*bits)
+}
+
+func (q primeReq) text() string { return fmt.Sprintf("prime %s %d", q.form, q.bits) }
+
+func generate(q primeReq, rd io.Reader) (ps []*big.Int, err error) {
+	set := num.NPlus()
+	var p, p2 *num.NatPlus
+	if pn := vh.Safely(func() {
+		switch q.form {
+		case "prime":
+			p, err = nt.GeneratePrime(set, uint(q.bits), rd)
+		case "blum":
+			p, err = nt.GenerateBlumPrime(set, uint(q.bits), rd)
+		case "safe":
+			p, err = nt.GenerateSafePrime(set, uint(q.bits), rd)
+		case "pair":
+			p, p2, err = nt.GeneratePrimePair(set, uint(2*q.bits), rd)
+		case "blumpair":
+			p, p2, err = nt.GenerateBlumPrimePair(set, uint(2*q.bits), rd)
+		case "safepair":
+			p, p2, err = nt.GenerateSafePrimePair(set, uint(2*q.bits), rd)
+		}
+	}); pn != "" {
+		return nil, fmt.Errorf("panic: %s", pn)
+	}
+	if err != nil {
+		return nil, err
+	}
+	ps = append(ps, p.Big())
+	if p2 != nil {
+		ps = append(ps, p2.Big())
+	}
+	return ps, nil
+}
+
+// checkPrimes evaluates one request: every returned prime is tested by the model's
+// deterministic Miller-Rabin (and by math/big as oracle) for primality, bit length and form.
+func checkPrimes(a vh.Args, res *vh.Result, q primeReq, idx int) {
+	rd := &lockedReader{r: vh.NewRng(a.Seed, "C17", "primegen-"+q.form, idx*1000+q.bits)}
+	ps, err := generate(q, rd)
+	res.Count("prime-"+q.form, q.text()+fmt.Sprintf(" #%d", idx), err == nil)
+	if err != nil {
+		report(res, vh.Mismatch{ID: q.text(), Kind: "prop", Key: "primegen-" + q.form + "-fails", Detail: "generator failed: " + err.Error(), Case: q.text(), PropFail: true, What: "prime generation returns a prime"})
+		return
+	}
+	var lines []string
+	for _, p := range ps {
+		lines = append(lines, fmt.Sprintf("prime.check %s %x", vh.ZHex(p), q.bits))
+	}
+	out, derr := vh.Driver(a.Driver, lines)
+	if derr != nil {
+		res.Note("driver: %v", derr)
+		return
+	}
+	blum := strings.HasPrefix(q.form, "blum")
+	safe := strings.HasPrefix(q.form, "safe")
+	for i, p := range ps {
+		v := parseOk(out[i])
+		what := ""
+		switch {
+		case v == nil || len(v) != 4:
+			what = "model failed: " + out[i]
+		case v[0].Sign() == 0 || !p.ProbablyPrime(32):
+			what = "not prime"
+		case v[1].Sign() == 0 || p.BitLen() != q.bits:
+			what = fmt.Sprintf("bit length %d, requested %d", p.BitLen(), q.bits)
+		case blum && (v[2].Int64() != 3 || p.Bit(1) != 1):
+			what = "not congruent 3 mod 4 (Blum form)"
+		case safe && (v[3].Sign() == 0 || !new(big.Int).Rsh(p, 1).ProbablyPrime(32)):
+			what = "(p-1)/2 is not prime (safe form)"
+		}
+		if what != "" {
+			key := "primegen-" + q.form
+			if strings.HasPrefix(what, "bit length") {
+				key += "-bitlength"
+			}
+			report(res, vh.Mismatch{ID: q.text(), Kind: "prop", Key: key, Detail: fmt.Sprintf("generated %s: %s", vh.ZHex(p), what),
+				Case: q.text() + fmt.Sprintf(" #%d", idx), PropFail: true, What: "generated primes are prime, of the requested bit length and form (model Miller-Rabin + math/big)"})
+		}
+	}
+	if len(ps) == 2 {
+		n := new(big.Int).Mul(ps[0], ps[1])
+		if ps[0].Cmp(ps[1]) == 0 || n.BitLen() != 2*q.bits {
+			report(res, vh.Mismatch{ID: q.text(), Kind: "prop", Key: "primegen-" + q.form, Detail: fmt.Sprintf("pair %s,%s: equal primes or product of %d bits (requested %d)", vh.ZHex(ps[0]), vh.ZHex(ps[1]), n.BitLen(), 2*q.bits),
+				Case: q.text() + fmt.Sprintf(" #%d", idx), PropFail: true, What: "generated prime pairs are distinct and their product has the requested length"})
+		}
+	}
+}
+
+func primeChecks(a vh.Args, res *vh.Result, g *genCtx) {
+	reqs := []primeReq{
+		{"prime", 16}, {"prime", 17}, {"prime", 32}, {"prime", 64}, {"prime", 127}, {"prime", 256},
+		{"blum", 16}, {"blum", 20}, {"blum", 24}, {"blum", 32}, {"blum", 64}, {"blum", 128},
+		{"safe", 16}, {"safe", 20}, {"safe", 24}, {"safe", 32}, {"safe", 64},
+		{"pair", 32}, {"pair", 64}, {"blumpair", 32}, {"blumpair", 64}, {"safepair", 32},
+	}
+	reps := 2
+	if a.Tier == "thorough" {
+		reps = 8
+		reqs = append(reqs, primeReq{"prime", 512}, primeReq{"blum", 256}, primeReq{"blum", 512}, primeReq{"safe", 128}, primeReq{"pair", 512},
+			primeReq{"blumpair", 256}, primeReq{"safepair", 64}, primeReq{"blum", 20}, primeReq{"blum", 33}, primeReq{"safe", 20}, primeReq{"safe", 33}, primeReq{"prime", 20})
+	}
+	for _, q := range reqs {
+		for i := 0; i < reps; i++ {
+			checkPrimes(a, res, q, i)
+		}
+	}
+}
+
+func replayPrime(a vh.Args, res *vh.Result, txt string) {
+	var q primeReq
+	idx := 0
+	f := strings.Fields(txt)
+	if len(f) < 3 {
+		return
+	}
+	q.form = f[1]
+	fmt.Sscanf(f[2], "%d", &q.bits)
+	if len(f) > 3 {
+		fmt.Sscanf(f[3], "#%d", &idx)
+	}
+	checkPrimes(a, res, q, idx)
+}
